@@ -81,6 +81,176 @@ func hashFunc(name string) func() hash.Hash {
 	panic("unknown hash " + name)
 }
 
+// ---------------------------------------------------------------- option lists
+
+// optSpec is one CanonicalizeOption value: which setters were called on it (-1 = not called).
+// hash: index into a list of hash functions; prov: index into a list of providers; build: 0/1.
+type optSpec struct{ hash, prov, build int }
+
+// splitOpts spreads an intended configuration (hash >= 0 always set; prov/build may be -1 = leave the
+// default) over 1..3 option values, with overridden earlier settings and option values that set nothing
+// or only other fields AFTER the one that matters, so that the merge logic of Canonicalize
+// (CanonicalizeConfig.apply: last set wins per field) is exercised.
+func splitOpts(r *vh.Rng, hash, prov, build, nHash, nProv int) []optSpec {
+	n := 1 + r.Intn(3)
+	os := make([]optSpec, n)
+	for i := range os {
+		os[i] = optSpec{-1, -1, -1}
+	}
+	place := func(val, alts int, set func(o *optSpec, v int)) {
+		if val < 0 {
+			return
+		}
+		k := r.Intn(n)
+		set(&os[k], val)
+		for i := 0; i < k; i++ { // earlier, overridden values
+			if r.Bool() && alts > 1 {
+				set(&os[i], (val+1+r.Intn(alts-1))%alts)
+			}
+		}
+	}
+	place(hash, nHash, func(o *optSpec, v int) { o.hash = v })
+	place(prov, nProv, func(o *optSpec, v int) { o.prov = v })
+	place(build, 2, func(o *optSpec, v int) { o.build = v })
+	return os
+}
+
+func wireOpts(os []optSpec) string {
+	d := func(v int) string {
+		if v < 0 {
+			return "-"
+		}
+		return fmt.Sprint(v)
+	}
+	var sb strings.Builder
+	for _, o := range os {
+		sb.WriteString("h" + d(o.hash) + "p" + d(o.prov) + "b" + d(o.build) + ";")
+	}
+	return sb.String()
+}
+
+// canonOptions builds the real option values.
+func canonOptions(os []optSpec, hashes []func() hash.Hash, provs []blanknodes.StringProvider) []rdfcanon.CanonicalizeOption {
+	var res []rdfcanon.CanonicalizeOption
+	for _, o := range os {
+		c := rdfcanon.CanonicalizeConfig{}
+		// setters in random-looking but fixed order; each returns a copy
+		if o.build >= 0 {
+			c = c.SetBuildCanonicalQuad(o.build == 1)
+		}
+		if o.hash >= 0 {
+			c = c.SetHashFunc(hashes[o.hash])
+		}
+		if o.prov >= 0 {
+			c = c.SetBlankNodeStringProvider(provs[o.prov])
+		}
+		res = append(res, c)
+	}
+	return res
+}
+
+type prefixProv struct {
+	pfx  string
+	base blanknodes.StringProvider
+}
+
+func (p prefixProv) GetBlankNodeString(bn rdf.BlankNode) string {
+	return p.pfx + p.base.GetBlankNodeString(bn)
+}
+
+// goEffectiveOpts observes the configuration Canonicalize actually runs with: which hash function is
+// called (marker), which provider names the blank node (prefix), whether canonical quads were built.
+func goEffectiveOpts(os []optSpec) (res string) {
+	defer func() {
+		if p := recover(); p != nil {
+			res = fmt.Sprintf("panic:%v", p)
+		}
+	}()
+	used := make([]bool, 10)
+	hashes := make([]func() hash.Hash, 10)
+	for i := range hashes {
+		i := i
+		hashes[i] = func() hash.Hash { used[i] = true; return sha256.New() }
+	}
+	provs := make([]blanknodes.StringProvider, 10)
+	for i := range provs {
+		provs[i] = prefixProv{fmt.Sprintf("p%d-", i), blanknodes.NewInt64StringProvider("n%d")}
+	}
+	b := rdf.NewBlankNode()
+	qs := rdf.QuadList{{Triple: rdf.Triple{Subject: b, Predicate: rdf.IRI("a:p"), Object: rdf.IRI("a:o")}}}
+	c, err := rdfcanon.Canonicalize(context.Background(), quads.NewIterator(qs), canonOptions(os, hashes, provs)...)
+	if err != nil {
+		return "error:" + err.Error()
+	}
+	h := "-"
+	for i, u := range used {
+		if u {
+			if h != "-" {
+				return "two hash functions used"
+			}
+			h = fmt.Sprint(i)
+		}
+	}
+	p := "-"
+	if id := c.GetBlankNodeIdentifier(b); strings.HasPrefix(id, "p") && len(id) > 2 {
+		p = id[1:2]
+	} else if id != "c14n0" {
+		return "unexpected identifier " + id
+	}
+	built := "1"
+	func() {
+		defer func() {
+			if recover() != nil {
+				built = "0"
+			}
+		}()
+		c.AsQuads()
+	}()
+	return "h" + h + " p" + p + " b" + built
+}
+
+func (h *harness) optsCases(n int) {
+	for i := 0; i < n; i++ {
+		os := splitOpts(h.r, h.r.Intn(4)-1, h.r.Intn(4)-1, h.r.Intn(3)-1, 3, 3)
+		if h.r.Chance(30) { // fully random option values
+			for k := range os {
+				os[k] = optSpec{h.r.Intn(4) - 1, h.r.Intn(4) - 1, h.r.Intn(3) - 1}
+			}
+		}
+		line := "canon.opts " + wireOpts(os)
+		goR := goEffectiveOpts(os)
+		h.rep.Eval(line, len(os) > 1)
+		h.rep.Count("op:opts")
+		h.ask(line, func(res string) {
+			if res != goR {
+				h.disagreement(line, goR, res, "T3: effective configuration of Canonicalize(options...) differs from Model.Rdfcanon.compileOpts (last set wins per field)")
+				if strings.HasPrefix(goR, "h") && strings.HasPrefix(res, "h") && strings.Fields(goR)[0] != strings.Fields(res)[0] {
+					h.violation(line, "C04: the substituted hash function is not the one Canonicalize runs with: go="+goR+" expected="+res)
+				}
+			}
+		})
+	}
+	// the shape of the seeded regression, always: hash first, then option values that do not mention it
+	for _, os := range [][]optSpec{
+		{{1, -1, -1}, {-1, -1, 1}}, {{1, -1, -1}, {-1, 0, -1}}, {{2, -1, -1}, {-1, -1, -1}}, {{-1, -1, 1}, {1, -1, -1}},
+		{{0, 1, 0}, {1, -1, -1}, {-1, 2, 1}}, {{-1, -1, -1}}, {},
+	} {
+		line := "canon.opts " + wireOpts(os)
+		if len(os) == 0 {
+			line = "canon.opts ;"
+		}
+		goR := goEffectiveOpts(os)
+		h.rep.Eval(line, true)
+		h.rep.Count("op:opts")
+		h.ask(line, func(res string) {
+			if res != goR {
+				h.disagreement(line, goR, res, "T3: effective configuration of Canonicalize(options...) differs from Model.Rdfcanon.compileOpts (last set wins per field)")
+				h.violation(line, "C04: Canonicalize does not run with the configuration its options describe: go="+goR+" expected="+res)
+			}
+		})
+	}
+}
+
 // ---------------------------------------------------------------- datasets
 
 // dataset is a list of quads whose blank nodes carry labels (wire form and reporting).
@@ -204,14 +374,41 @@ type goRes struct {
 	c     *rdfcanon.Canonicalization
 }
 
+// optRng drives how goCanon spreads its configuration over option values (seeded in Main).
+var optRng *vh.Rng
+
+// canonOpts: the intended configuration (hash hashName, default provider, canonical quads on or off) spread
+// over 1..3 option values; the other hash functions serve as overridden earlier settings.
+func canonOpts(hashName string) []rdfcanon.CanonicalizeOption {
+	names := []string{"sha256", "sha384", "test8", "test2"}
+	hashes := make([]func() hash.Hash, len(names))
+	want := 0
+	for i, n := range names {
+		hashes[i] = hashFunc(n)
+		if n == hashName {
+			want = i
+		}
+	}
+	if optRng == nil {
+		return []rdfcanon.CanonicalizeOption{rdfcanon.CanonicalizeConfig{}.SetHashFunc(hashes[want])}
+	}
+	if hashName == "sha256" && optRng.Chance(30) {
+		want = -1 // leave the default
+	}
+	os := splitOpts(optRng, want, -1, optRng.Intn(3)-1, len(names), 1)
+	if want < 0 && optRng.Chance(50) {
+		os = nil
+	}
+	return canonOptions(os, hashes, nil)
+}
+
 func goCanon(hashName string, d dataset) (res goRes) {
 	defer func() {
 		if p := recover(); p != nil {
 			res = goRes{line: "panic"}
 		}
 	}()
-	c, err := rdfcanon.Canonicalize(context.Background(), quads.NewIterator(rdf.QuadList(d.quads)),
-		rdfcanon.CanonicalizeConfig{}.SetHashFunc(hashFunc(hashName)))
+	c, err := rdfcanon.Canonicalize(context.Background(), quads.NewIterator(rdf.QuadList(d.quads)), canonOpts(hashName)...)
 	if err != nil {
 		switch {
 		case errors.Is(err, rdfcanon.ErrMaxIterationsReached):
@@ -1292,6 +1489,7 @@ func Main(prop string) {
 		os.Exit(2)
 	}
 	h.known = vh.KnownKeys(fs, prop)
+	optRng = vh.NewRng(seed ^ 0x6f707473)
 
 	finish := func() {
 		if !*nomodel {
@@ -1343,6 +1541,14 @@ func Main(prop string) {
 		maxNodes = 12
 	}
 
+	// option lists: effective configuration of Canonicalize(options...)
+	if !*nomodel {
+		nOpts := 300
+		if *tier == "thorough" {
+			nOpts = 5000
+		}
+		h.optsCases(nOpts * *scale)
+	}
 	// corpus: the W3C vectors first
 	h.vectors()
 	if err := h.flushIfModel(); err != nil {
